@@ -113,4 +113,27 @@ prop("C18",
      assumptions=["little-endian host (jenkins == jenkinsLE is asserted)", "spifhash_jenkins32 is only driven with 4-byte-aligned keys and a length in 32-bit words"],
      runs=[dict(name="h_hash", sources=["harness/h_hash.c"], profile="asan", args={"quick": ["--maxlen=40"], "thorough": ["--maxlen=100"]})],
      deadline={"quick": 120, "thorough": 1200})
+
+
+prop("C05",
+     level="exploration",
+     technique="bounded exhaustive enumeration (E2) of (class x family x reachable state x continuation) for dup independence and of all pairs/triples of pool objects for the comparison laws, under ASan",
+     rule="for every value class and every list/vector/map class of the three families, every pool state (built by a construction/mutation history) is duplicated and put through "
+          "every continuation: compare class/type()/value; mutate copy with each mutator; mutate original with each mutator; delete copy first; delete original first; "
+          "all ordered pairs (reflexivity, antisymmetry, NULL first, value order for str/ustr/mbuff) and all triples (transitivity) of pool states per class; "
+          "spif_obj_comp on synthetic addresses up to 2^40 apart; non-trivial = all dup continuations, pairs that compare unequal, all triples",
+     bounds={"quick": "pools of 4..11 states per class; full pair/triple sets", "thorough": "same (the space is enumerated completely in both tiers)"},
+     runs=[dict(name="h_proto", sources=["harness/h_proto.c"], profile="asan", args={})],
+     deadline={"quick": 200, "thorough": 1200})
+
+
+prop("C06",
+     level="model_checking",
+     technique="explicit-state BFS over object-API programs (two slots per class: build, dup, ownership-correct mutators, del) with the allocator as the invariant: live heap after teardown == baseline, ASan double-free/use-after-free",
+     rule="E1 per class and family: BFS over programs {s = build(state i), s' = dup(s), s.mutator_j (setters, done/re-init, remove*/to_array/iterator/get_keys.. with hand-back released by the program), del(s)} "
+          "on two slots up to the depth bound; dedup by (observable value of both slots, bytes held); after every explored history the program deletes what it owns and the heap must equal its baseline; "
+          "non-trivial = distinct reachable (value, held-bytes) states",
+     bounds={"quick": "depth <= 4 per class (16 class/family systems)", "thorough": "depth <= 6"},
+     runs=[dict(name="h_own", sources=["harness/h_own.c"], profile="asan", args={"quick": ["--depth=4"], "thorough": ["--depth=6"]})],
+     deadline={"quick": 240, "thorough": 3000})
 NOT_CLAIMED = {}
